@@ -1,0 +1,75 @@
+//go:build verif
+
+package bttest
+
+import (
+	"os"
+	"strconv"
+	"strings"
+	"sync/atomic"
+	"syscall"
+	"time"
+
+	"cloud.google.com/go/bigtable"
+)
+
+// Verification hooks (build tag "verif" only; see /verif/DESIGN.md section 4.2).
+
+// VerifHook, when set, is called at every instrumented point.
+var VerifHook func(point string, kv ...interface{})
+
+var verifCrashAt, verifCrashN = func() (string, int64) {
+	spec := os.Getenv("VERIF_CRASH_AT") // <point>#<n>: SIGKILL self at the n-th hit of point
+	if spec == "" {
+		return "", 0
+	}
+	parts := strings.SplitN(spec, "#", 2)
+	n := int64(1)
+	if len(parts) == 2 {
+		if v, err := strconv.ParseInt(parts[1], 10, 64); err == nil {
+			n = v
+		}
+	}
+	return parts[0], n
+}()
+
+var verifCrashHits int64
+
+func verifPoint(point string, kv ...interface{}) {
+	if verifCrashAt != "" && point == verifCrashAt {
+		if atomic.AddInt64(&verifCrashHits, 1) == verifCrashN {
+			_ = syscall.Kill(os.Getpid(), syscall.SIGKILL)
+			select {}
+		}
+	}
+	if h := VerifHook; h != nil {
+		h(point, kv...)
+	}
+}
+
+// VerifGC runs one garbage-collection pass over the named table with the given clock value.
+// With force=false the pass is subject to the usual quiescence test. Returns false if there is no such table.
+func (s *Server) VerifGC(table string, now bigtable.Timestamp, force bool) bool {
+	s.s.mu.Lock()
+	tbl, ok := s.s.tables[table]
+	s.s.mu.Unlock()
+	if !ok {
+		return false
+	}
+	tbl.gc(now, s.s.done, force)
+	return true
+}
+
+// VerifSetIdle makes the named table look as if it was last read and written d ago.
+func (s *Server) VerifSetIdle(table string, d time.Duration) bool {
+	s.s.mu.Lock()
+	tbl, ok := s.s.tables[table]
+	s.s.mu.Unlock()
+	if !ok {
+		return false
+	}
+	at := time.Now().Add(-d).UnixNano()
+	atomic.StoreInt64(&tbl.lastReadNanos, at)
+	atomic.StoreInt64(&tbl.lastWriteNanos, at)
+	return true
+}
